@@ -23,4 +23,4 @@ for r in /tmp/confirmR/*.result; do
     echo "NOT CONFIRMED: $(cat $r)"
   fi
 done
-[ -n "$new" ] && /venv/bin/python tools/refactor_matrix.py $new
+[ -n "$new" ] && /venv/bin/python tools/matrix_par.py --refactors -j 6 $new
